@@ -181,6 +181,15 @@ func runCases(col *Collector, drv *Driver, cases []Case) {
 		}
 	}
 	resps := make([]map[string]string, len(cases))
+	if d := os.Getenv("VERIF_DUMP_LINES"); d != "" {
+		if f, err := os.OpenFile(d, os.O_APPEND|os.O_CREATE|os.O_WRONLY, 0o644); err == nil {
+			for _, l := range lines {
+				f.WriteString(l + "\n")
+			}
+			f.Close()
+		}
+		return
+	}
 	if len(lines) > 0 {
 		out, err := drv.Batch(lines)
 		if err != nil {
